@@ -23,13 +23,14 @@ def noProcessState (caches : List (String Ã— String)) (defaults : List (String Ã
 /-- ways of binding a local that yield a new array (or keep it the same new array) -/
 def freshKinds : List String := ["alloc", "copy", "fresh-call", "view"]
 
-/-- the kernel call sites the table must cover -/
+/-- the (function, kernel) pairs the table must cover â€” by at least one call each, however many call sites the
+function spells them with (one per mode branch, or one loop over per-frame views) -/
 def kernelSites : List String :=
-  ["VariableDensityPoissonMaskFunc.poisson:_poisson#0",
-   "Gaussian1DMaskFunc.mask_func:gaussian_mask_1d#0", "Gaussian1DMaskFunc.mask_func:gaussian_mask_1d#1",
-   "Gaussian2DMaskFunc.mask_func:gaussian_mask_2d#0", "Gaussian2DMaskFunc.mask_func:gaussian_mask_2d#1"]
+  ["VariableDensityPoissonMaskFunc.poisson:_poisson",
+   "Gaussian1DMaskFunc.mask_func:gaussian_mask_1d",
+   "Gaussian2DMaskFunc.mask_func:gaussian_mask_2d"]
 
-/-- every kernel call site is listed, the array is a local, every assignment that precedes the call binds it to a fresh
+/-- every (function, kernel) pair is listed, the array is (a view of) a local, every assignment that precedes the call binds it to a fresh
 object (or to a view of itself), and at least one of them really creates it -/
 def kernelArraysOk (tbl : List (String Ã— String Ã— List String)) : Bool :=
   kernelSites.all (fun s => tbl.any fun r => r.1 == s) &&
